@@ -358,6 +358,12 @@ def stepReg (st : DState) (args : List String) : Option (DState × String) :=
     | some u, some v => some (st, match r.unitEq u v with
         | some b => s!"ok {b}" | none => "err AssertionError")
     | _, _ => some (st, bad)
+  | ["ucmp", op, u, v] =>
+    let c : Option QState.Cmp := match op with
+      | "lt" => some .lt | "le" => some .le | "gt" => some .gt | "ge" => some .ge | _ => none
+    match c, unitId? r u, unitId? r v with
+    | some c, some u, some v => some (st, showBRes (q.unitCmp c u v))
+    | _, _, _ => some (st, bad)
   | ["q_mk", cls, a, u, dflt] =>
     match (if cls == "-" then some none else (clsId? r cls).map some), parseAmount? a,
       unitId? r u, Rounding.ofName? dflt with
